@@ -105,7 +105,33 @@ Definition coincidences (es fs : list axis) (vars : list pn) : list (list nat) :
   map (fun pi => map (fun kn => env_of pi (fst kn)) vars)
       (filter (fun pi => nat_list_eqb (evals (env_of pi) es) (evals (env_of pi) fs)) (all_envs vars)).
 
-Definition unify_fuel (es fs : list axis) : nat := 6 * (asize_list es + asize_list fs) + 10.
+(** Fuel for [unify_list] (an artefact of the model: the Python code has no fuel).
+
+    The former formula [unify_fuel_old] -- linear in the number of nodes of the two patterns -- does
+    NOT suffice on all typed patterns: for [a.X = X.a'] ([X] a physical axis of size [2^w] shared by
+    the two patterns, [a], [a'] of size 2) the unifier discovers [X = a^w] one factor at a time and
+    the recursion is [3 w + 1] deep, while the patterns have 6 nodes whatever [w]
+    ([unify_fuel_old_refuted], Proofs/Axis_fuel_suffices.v; notes/UNIFY.md).  The depth is governed by
+    the number of primes of the index type, which the sizes bound ([log2]), and by the number of
+    sum types crossed, which the [Sum] nodes bound:
+
+      3 * ((number of Sum nodes of both patterns + 1) * (log2 (largest dimension) + 1))
+
+    suffices for every typed pair ([unify_model_fuel_total], same file).  The old term is kept as a
+    summand so that the fuel only grows (more fuel never changes an answer, [unify_list_mono]) --
+    in particular on the untyped (malformed) stream of the checks. *)
+Fixpoint nsum (e : axis) : nat :=
+  match e with
+  | Phys _ _ => 0
+  | Prod l => fold_right (fun e acc => nsum e + acc) 0 l
+  | Sum _ t _ => S (nsum t)
+  end.
+Definition nsum_list (l : list axis) : nat := fold_right (fun e acc => nsum e + acc) 0 l.
+Definition maxnumel (l : list axis) : nat := fold_right (fun e acc => Nat.max (numel e) acc) 0 l.
+
+Definition unify_fuel_old (es fs : list axis) : nat := 6 * (asize_list es + asize_list fs) + 10.
+Definition unify_fuel (es fs : list axis) : nat :=
+  unify_fuel_old es fs + 3 * ((nsum_list es + nsum_list fs + 1) * (Nat.log2 (maxnumel (es ++ fs)) + 1)).
 
 (** (es, fs, next uid, typed?, impl: success, warned, denoted tuples over [vars]) *)
 Definition axis_unify_check
